@@ -2,6 +2,9 @@ package main
 
 import (
 	"fmt"
+	"go/constant"
+	"go/token"
+	"go/types"
 
 	"golang.org/x/tools/go/ssa"
 )
@@ -92,6 +95,10 @@ type mustPerf struct {
 	w      *World
 	direct func(c ssa.CallInstruction) bool
 	memo   map[*ssa.Function]int // 0 unknown, 1 in progress, 2 yes, 3 no
+	// exit: the returns the caller's query is about (nil = all). A cleanup guarded by a
+	// success flag or a local error performs X only on some returns; it counts when it
+	// covers all returns of interest.
+	exit func(*ssa.Return) bool
 }
 
 func newMustPerf(w *World, direct func(c ssa.CallInstruction) bool) *mustPerf {
@@ -113,8 +120,10 @@ func (m *mustPerf) instr(in ssa.Instruction) bool {
 		if m.direct(c) {
 			return true
 		}
-		if sc := d.Call.StaticCallee(); sc != nil {
-			return m.w.inModuleOrFB(sc) && m.fn(sc)
+		if _, isMC := d.Call.Value.(*ssa.MakeClosure); !isMC {
+			if sc := d.Call.StaticCallee(); sc != nil {
+				return m.w.inModuleOrFB(sc) && m.fn(sc)
+			}
 		}
 		mc, ok := d.Call.Value.(*ssa.MakeClosure)
 		if !ok {
@@ -178,6 +187,11 @@ func (m *mustPerf) instr(in ssa.Instruction) bool {
 				}
 			}
 			if all {
+				okGuard = true
+			}
+		}
+		if !okGuard && m.exit != nil {
+			if g := analyseFlagGuard(d, m.direct); g != nil && g.coversExits(m.exit) {
 				okGuard = true
 			}
 		}
@@ -299,4 +313,179 @@ func checkErrorHandled(w *World, c *ssa.Call) string {
 		return fmt.Sprintf("after the call failed a success return is reachable at %s via %s", w.instrPos(ret), w.blockPathString(p))
 	}
 	return ""
+}
+
+// ---- guarded deferred cleanup ----
+
+// boolTest: block b ends in a test of a boolean value x (possibly negated or
+// compared with a constant); onTrue/onFalse are the successors taken when x is true/false.
+func boolTest(b *ssa.BasicBlock) (x ssa.Value, onTrue, onFalse *ssa.BasicBlock, ok bool) {
+	if len(b.Instrs) == 0 {
+		return
+	}
+	iff, isIf := b.Instrs[len(b.Instrs)-1].(*ssa.If)
+	if !isIf {
+		return
+	}
+	v := iff.Cond
+	t, f := b.Succs[0], b.Succs[1]
+	for i := 0; i < 4; i++ {
+		switch c := v.(type) {
+		case *ssa.UnOp:
+			if c.Op == token.NOT {
+				v = c.X
+				t, f = f, t
+				continue
+			}
+		case *ssa.BinOp:
+			if c.Op == token.EQL || c.Op == token.NEQ {
+				var other ssa.Value
+				var k *ssa.Const
+				if kk, ok := c.Y.(*ssa.Const); ok {
+					k, other = kk, c.X
+				} else if kk, ok := c.X.(*ssa.Const); ok {
+					k, other = kk, c.Y
+				}
+				if k != nil && k.Value != nil && k.Value.Kind() == constant.Bool {
+					same := constant.BoolVal(k.Value) == (c.Op == token.EQL)
+					v = other
+					if !same {
+						t, f = f, t
+					}
+					continue
+				}
+			}
+		}
+		break
+	}
+	if bt, isB := v.Type().Underlying().(*types.Basic); !isB || bt.Kind() != types.Bool {
+		return
+	}
+	return v, t, f, true
+}
+
+// flagGuard describes `defer func() { if flag == runWhen { X } }()` where flag is a
+// boolean local of the enclosing function captured only by this closure.
+type flagGuard struct {
+	d       *ssa.Defer
+	parent  *ssa.Function
+	al      *ssa.Alloc
+	runWhen bool
+	sets    []*ssa.Store // stores that make the flag differ from runWhen
+}
+
+func analyseFlagGuard(d *ssa.Defer, isX func(ssa.CallInstruction) bool) *flagGuard {
+	mc, ok := d.Call.Value.(*ssa.MakeClosure)
+	if !ok {
+		return nil
+	}
+	df := mc.Fn.(*ssa.Function)
+	var g *flagGuard
+	for _, b := range df.Blocks {
+		x, onT, onF, isTest := boolTest(b)
+		if !isTest {
+			continue
+		}
+		ld, ok := x.(*ssa.UnOp)
+		if !ok || ld.Op != token.MUL {
+			continue
+		}
+		fv, ok := ld.X.(*ssa.FreeVar)
+		if !ok {
+			continue
+		}
+		for _, pol := range []bool{true, false} {
+			edge := onT
+			if !pol {
+				edge = onF
+			}
+			hasX, allX := false, true
+			for _, bb := range df.Blocks {
+				for _, in2 := range bb.Instrs {
+					if c2, ok := in2.(ssa.CallInstruction); ok && isX(c2) {
+						if edgeDominates(b, edge, bb) {
+							hasX = true
+						} else {
+							allX = false
+						}
+					}
+				}
+			}
+			if !hasX || !allX {
+				continue
+			}
+			var bound ssa.Value
+			for i, v := range df.FreeVars {
+				if v == fv && i < len(mc.Bindings) {
+					bound = mc.Bindings[i]
+				}
+			}
+			al, ok := bound.(*ssa.Alloc)
+			if !ok {
+				continue
+			}
+			g = &flagGuard{d: d, parent: d.Parent(), al: al, runWhen: pol}
+		}
+	}
+	if g == nil {
+		return nil
+	}
+	// the flag is written only by plain stores of the enclosing function and captured by this closure alone
+	refs := g.al.Referrers()
+	if refs == nil {
+		return nil
+	}
+	initOK := !g.runWhen // the zero value is false
+	for _, r := range *refs {
+		switch x := r.(type) {
+		case *ssa.Store:
+			if x.Addr != ssa.Value(g.al) {
+				return nil
+			}
+			if k, ok := x.Val.(*ssa.Const); ok && k.Value != nil && k.Value.Kind() == constant.Bool && constant.BoolVal(k.Value) == g.runWhen {
+				if dominatesInstr(x, d) {
+					initOK = true
+				}
+				continue
+			}
+			g.sets = append(g.sets, x)
+		case *ssa.MakeClosure:
+			if x != mc {
+				return nil
+			}
+		case *ssa.UnOp, *ssa.DebugRef:
+		default:
+			return nil
+		}
+	}
+	if !initOK {
+		return nil
+	}
+	return g
+}
+
+// coversExits: at every return satisfying exit the flag still has the value under which X runs
+// (no flag-changing store can reach such a return).
+func (g *flagGuard) coversExits(exit func(*ssa.Return) bool) bool {
+	for _, s := range g.sets {
+		if p, _ := findBypass(pathQuery{fn: g.parent, startAfter: s, passes: func(ssa.Instruction) bool { return false }, exit: exit}); p != nil {
+			return false
+		}
+	}
+	return true
+}
+
+// setBefore: every path from the defer to a return satisfying exit passes a flag-changing store
+// (so X does not run there).
+func (g *flagGuard) setBefore(exit func(*ssa.Return) bool) bool {
+	isSet := func(in ssa.Instruction) bool {
+		for _, s := range g.sets {
+			if in == ssa.Instruction(s) {
+				return true
+			}
+		}
+		return false
+	}
+	p, _ := findBypass(pathQuery{fn: g.parent, startAfter: g.d, passes: isSet, exit: exit})
+	return p == nil
 }
